@@ -302,6 +302,14 @@ PPL::Polyhedron::limited_H79_extrapolation_assign(const Polyhedron& y,
                                                   unsigned* tp) {
   Polyhedron& x = *this;
 
+  if (&cs == &x.con_sys || &cs == &y.con_sys) {
+    // `cs' is the constraint system of `x' or `y', which the computation
+    // below minimizes (shrinking and reallocating it): work on a copy.
+    const Constraint_System cs_copy(cs);
+    x.limited_H79_extrapolation_assign(y, cs_copy, tp);
+    return;
+  }
+
   const dimension_type cs_num_rows = cs.num_rows();
   // If `cs' is empty, we fall back to ordinary, non-limited widening.
   if (cs_num_rows == 0) {
@@ -841,6 +849,13 @@ PPL::Polyhedron
                                       const Constraint_System& cs,
                                       unsigned* tp) {
   Polyhedron& x = *this;
+  if (&cs == &x.con_sys || &cs == &y.con_sys) {
+    // `cs' is the constraint system of `x' or `y', which the computation
+    // below minimizes (shrinking and reallocating it): work on a copy.
+    const Constraint_System cs_copy(cs);
+    x.limited_BHRZ03_extrapolation_assign(y, cs_copy, tp);
+    return;
+  }
   const dimension_type cs_num_rows = cs.num_rows();
   // If `cs' is empty, we fall back to ordinary, non-limited widening.
   if (cs_num_rows == 0) {
